@@ -45,6 +45,9 @@ def optGet : Option Int → Except Exc Int
 /-- an object reference compared with `is` (a socket): an identifier, 0 = None -/
 abbrev Ref := Int
 
+/-- a user-callback attribute: installed or None -/
+abbrev Fn := Bool
+
 /-- what a translated method does to the client, one step at a time: a call of another method (by name, with its integer /
 boolean arguments) or the assignment of an integer (enum member, timestamp) to an attribute -/
 inductive MEff where
